@@ -1184,6 +1184,22 @@ pub fn run_hostile_pull(w: &mut World, server: &Peer, plans: &[AnswerPlan], o: &
                 n += 1;
                 served2.store(n, std::sync::atomic::Ordering::SeqCst);
                 let id = msg.id;
+                // the server of this scenario is an honest instance whose answers are rewritten:
+                // it must not be brought down by what the puller relays back to it (a date taken
+                // from a rewritten answer), that would be the known wire-query finding again
+                let relayed_date = match &msg.query {
+                    Query::RoomLogAt(_, d) | Query::EdgeDeletionLog(_, _, d) | Query::NodeDeletionLog(_, _, d) | Query::RoomDailyNodes(_, _, d) => Some(*d),
+                    _ => None,
+                };
+                if let Some(d) = relayed_date {
+                    if !(-8_000_000_000_000_000..=8_000_000_000_000_000).contains(&d) {
+                        let payload = bincode::serialize(&dvv::synchronisation::Error::RemoteTechnical("date".into())).unwrap();
+                        if a_tx.send(Answer { id, success: false, complete: true, serialized: payload }).await.is_err() {
+                            return;
+                        }
+                        continue;
+                    }
+                }
                 // honest answers first
                 let mut honest: Vec<Answer> = Vec::new();
                 {
